@@ -3,7 +3,7 @@
    raw-trace monitors of the pipeline-level properties (C01, C02, C04, C05, C10, C13, C15).
    A trace entry is (objkind objidx kind a b c d): objkind 1 batcher (idx 0 main, 1 dead queue),
    2 stream, 3 processor, 4 pipeline; stream addresses inside a..d are already stream indices. *)
-From Verif Require Import Base.Sx Model.Batcher Model.BatcherGlue Model.Stream Model.Proc.
+From Verif Require Import Base.Sx Model.Batcher Model.BatcherGlue Model.Stream Model.Proc Model.StreamFlow.
 
 Record pentry := { pok : Z; poi : Z; pk : Z; pa : Z; pb : Z; pc : Z; pd : Z }.
 
@@ -170,6 +170,95 @@ Fixpoint run_procs (n : Z) (ps : list (Z * procst)) (es : list pentry) (k : Z) :
               end
   end.
 
+Fixpoint last_of_ (s : Z) (l : list (Z * Z)) : option Z :=
+  match l with [] => None | (s', v) :: r => if s' =? s then Some v else last_of_ s r end.
+
+(* ---- per-stream end-to-end flow: every stream's labels are replayed through Model/StreamFlow.v ---- *)
+(* the processor labels of an entry, as labels of the logical processor of the entry's stream *)
+Definition plabels_of (st : pst) (e : pentry) : option (list plabel) :=
+  match pk e with
+  | 30 =>
+      let kind := pd e mod 8 in
+      let busy := 8 <=? pd e in
+      let ev := {| pseq := (if kind =? 1 then 0 else pb e); pkind := kind |} in
+      let pre := match stack st with
+                 | [] => Some [PTake ev (pc e)]
+                 | f :: _ => match fph f with InDo => Some [PPush ev (pc e)] | _ => Some [] end
+                 end in
+      match pre with Some l => Some (l ++ [PDo ev (pc e) busy]) | None => None end
+  | 31 => match pres_of_Z (pd e), stack st with
+          | Some r, f :: _ => if (pseq (fev f) =? pb e) || (pkind (fev f) =? 1) then Some [PResult (fev f) (pc e) r] else None
+          | _, _ => None
+          end
+  | 32 =>
+      let ev := {| pseq := (if pc e =? 1 then 0 else pb e); pkind := pc e |} in
+      match stack st with
+      | [] => if nact st =? 0 then Some [PTake ev 0; POut ev] else None
+      | f :: _ => match fph f with
+                  | InDo => if pc e =? 1 then Some [PPush ev (nact st); POut ev] else None
+                  | _ => Some [POut ev]
+                  end
+      end
+  | 35 => match held_at (held st) (pc e - 1) with
+          | Some h => if pseq h =? pb e then Some [PPropagate h (pc e)] else None
+          | None => None
+          end
+  | 36 => match stack st with f :: _ => Some [PSpawn (fev f) (pc e)] | [] => None end
+  | _ => Some []
+  end.
+
+Fixpoint fsteps (f : fst_) (ls : list plabel) : option fst_ :=
+  match ls with
+  | [] => Some f
+  | l :: r => match fstep f (FProc l) with Some f' => fsteps f' r | None => None end
+  end.
+
+Fixpoint get_flow (l : list (Z * fst_)) (i : Z) : option fst_ :=
+  match l with [] => None | (k, v) :: r => if k =? i then Some v else get_flow r i end.
+Fixpoint set_flow (l : list (Z * fst_)) (i : Z) (v : fst_) : list (Z * fst_) :=
+  match l with [] => [(i, v)] | (k, w) :: r => if k =? i then (k, v) :: r else (k, w) :: set_flow r i v end.
+
+Record flows := { fl_cur : list (Z * Z); fl_st : list (Z * fst_) }.   (* processor -> current stream; stream -> state *)
+
+Definition flow_step (n : Z) (sync : bool) (fs : flows) (e : pentry) : option flows :=
+  let get s := match get_flow (fl_st fs) s with Some v => v | None => finit n sync end in
+  if pok e =? 3 then
+    match pk e with
+    | 30 | 31 | 32 | 35 | 36 =>
+        let s := if 0 <=? pa e then pa e else (match last_of_ (poi e) (fl_cur fs) with Some v => v | None => -1 end) in
+        if s <? 0 then None else
+        let f := get s in
+        match plabels_of (proc f) e with
+        | Some ls => match fsteps f ls with
+                     | Some f' => Some {| fl_cur := (poi e, s) :: fl_cur fs; fl_st := set_flow (fl_st fs) s f' |}
+                     | None => None
+                     end
+        | None => None
+        end
+    | _ => Some fs
+    end
+  else if (pok e =? 1) && (pk e =? 1) && (poi e =? 0) && (0 <=? pb e) then
+    (* Batcher.Add on the main batcher: a = seq, b = stream, d = kind *)
+    match fstep (get (pb e)) (FAdd {| pseq := pa e; pkind := pd e |}) with
+    | Some f' => Some {| fl_cur := fl_cur fs; fl_st := set_flow (fl_st fs) (pb e) f' |}
+    | None => None
+    end
+  else if (pok e =? 4) && (pk e =? 38) then
+    match fstep (get (pa e)) (FCommit {| pseq := pb e; pkind := 0 |}) with
+    | Some f' => Some {| fl_cur := fl_cur fs; fl_st := set_flow (fl_st fs) (pa e) f' |}
+    | None => None
+    end
+  else Some fs.
+
+Fixpoint run_flows (n : Z) (sync : bool) (fs : flows) (es : list pentry) (k : Z) : Z * bool :=
+  match es with
+  | [] => (k, true)
+  | e :: r => match flow_step n sync fs e with
+              | Some fs' => run_flows n sync fs' r (k + 1)
+              | None => (k, false)
+              end
+  end.
+
 (* ---- helpers -------------------------------------------------------------------------------- *)
 Definition key_eqb (a b : Z * Z) : bool := (fst a =? fst b) && (snd a =? snd b).
 Fixpoint mem_key (k : Z * Z) (l : list (Z * Z)) : bool :=
@@ -314,8 +403,10 @@ Definition lts_ok (atomic : bool) (c : pcfg) (es : list pentry) : bool * sx :=
   let '(n1, s1, ok1) := if 1 <=? p_outkind c then run_entries cm 0 (init cm) be 0 else (0, init cm, true) in
   let '(n2, s2, ok2) := if p_deadq c then run_entries cd 1 (init cd) be 0 else (0, init cd, true) in
   let '(n3, ok3) := run_procs (p_actions c) [] es 0 in
-  (ok && negb (scrashed t) && ok1 && ok2 && negb (crashed s1) && negb (crashed s2) && ok3,
-   SL [SL [of_bool ok; SZ n; of_bool (scrashed t)]; summary n1 s1 ok1; summary n2 s2 ok2; SL [of_bool ok3; SZ n3]]).
+  let '(n4, ok4) := if p_spread c || p_deadq c then (0, true)   (* spread routing / dead queue: recorded findings, not replayed *)
+                    else run_flows (p_actions c) (p_outkind c =? 0) {| fl_cur := []; fl_st := [] |} es 0 in
+  (ok && negb (scrashed t) && ok1 && ok2 && negb (crashed s1) && negb (crashed s2) && ok3 && ok4,
+   SL [SL [of_bool ok; SZ n; of_bool (scrashed t)]; summary n1 s1 ok1; summary n2 s2 ok2; SL [of_bool ok3; SZ n3]; SL [of_bool ok4; SZ n4]]).
 
 (* a monitor set = list of (monitor id, verdict); the ids of the failing ones are reported in the
    model field of a Violates verdict (known findings are matched on them) *)
